@@ -397,6 +397,33 @@ Section D.
     rewrite Hrep, andb_false_r. apply IH; [split; assumption | intros; apply Hcells; right; assumption].
   Qed.
 
+  (** the invariant holds in the initial state, for any first column min_n *)
+  Lemma init_state_d min_n : 0 <= min_n <= n ->
+    SD (min_n + 1 - 1) (mkS (init_column cfg s1 min_n) (if start_in_ref cfg then m else Z.min m (k + 1)) 0 (mkB 0 (no_best s1 n) 0 m n) 0 false).
+  Proof.
+    intros Hmin.
+    assert (Hn : 0 <= n) by apply zlen_nonneg.
+    assert (Hm : 0 <= m) by apply zlen_nonneg.
+    assert (Hinit : forall cnt lo, 0 <= lo -> lo + Z.of_nat cnt <= m + 1 -> colD min_n lo (map (init_entry cfg min_n) (zrange lo cnt))).
+    { induction cnt as [|c IH]; intros lo Hlo Hc; cbn [zrange map]; constructor; [|apply IH; lia].
+      split; [apply init_entry_ok; lia|].
+      unfold init_entry, cellD. destruct (start_in_ref cfg), (start_in_query cfg); cbn [cost score origin]; unfold DELETION_SCORE, rs_of, qs_of.
+      all: repeat split; try nia.
+      all: intros _.
+      all: (eapply ed_weak; [apply ed_trivial; exact IND_pos|]).
+      all: rewrite !zslice_length by lia; nia. }
+    assert (Hnz : forall cnt lo t d, (t < cnt)%nat -> nth t (zrange lo cnt) d = lo + Z.of_nat t).
+    { induction cnt as [|c IH]; intros lo t d Ht; [lia|]. destruct t as [|t']; cbn [zrange nth]; [lia|]. rewrite IH by lia. lia. }
+    replace (min_n + 1 - 1) with min_n by lia. unfold SD; cbn [col last best].
+    split; [apply Hinit; [lia | unfold zlen; lia]|]. split; [apply init_column_length|].
+    split; [destruct (start_in_ref cfg); lia|]. split; [|left; reflexivity].
+    unfold init_column. apply (Forall_skipn_nth (fun e => k < cost e) dummy). intros t Ht. rewrite map_length, zrange_length in Ht.
+    rewrite (nth_indep _ dummy (init_entry cfg min_n 0)) by (rewrite map_length, zrange_length; lia).
+    rewrite map_nth, Hnz by lia. unfold init_entry. destruct (start_in_ref cfg) eqn:Esr; [unfold zlen in *; lia|].
+    assert (Htk : k + 2 <= Z.of_nat t) by (unfold zlen in *; lia).
+    destruct (start_in_query cfg); cbn [cost]; [|assert (Hmx : Z.of_nat t <= Z.max (0 + Z.of_nat t) min_n) by lia]; nia.
+  Qed.
+
   (** ---- the result of locate_core *)
   Theorem locate_core_dist rs re qs qe sc e :
     locate_core eqc thr cfg rawref s1 s2 = Some (rs, re, qs, qe, sc, e) ->
